@@ -191,6 +191,11 @@ pub fn supertype_fn(info: &LangInfo, st: Option<&'static str>) -> impl Fn(&XTree
     }
 }
 
+thread_local! {
+    /// set by run_matches when a captured node does not look like the tree's node of the same identity (kind or extent differ)
+    pub static CAPTURED_NODE_MISMATCH: std::cell::RefCell<Option<String>> = std::cell::RefCell::new(None);
+}
+
 pub fn run_matches(cursor: &mut QueryCursor, query: &Query, tree: &Tree, text: &[u8], xt: &XTree) -> Vec<Binding> {
     let names = query.capture_names();
     let id_to_idx: HashMap<usize, usize> = xt.nodes.iter().enumerate().map(|(i, n)| (n.id, i)).collect();
@@ -198,7 +203,16 @@ pub fn run_matches(cursor: &mut QueryCursor, query: &Query, tree: &Tree, text: &
     let mut it = cursor.matches(query, tree.root_node(), text);
     while let Some(m) = it.next() {
         let mut b: Binding = vec![];
-        for c in m.captures { b.push((names[c.index as usize].to_string(), *id_to_idx.get(&c.node.id()).unwrap_or(&usize::MAX))); }
+        for c in m.captures {
+            let idx = *id_to_idx.get(&c.node.id()).unwrap_or(&usize::MAX);
+            // the node handed out must BE that node of the tree: same kind (aliases included), same extent
+            if let Some(n) = xt.nodes.get(idx) {
+                if n.kind_id != c.node.kind_id() || n.start != c.node.start_byte() || n.end != c.node.end_byte() || n.named != c.node.is_named() {
+                    CAPTURED_NODE_MISMATCH.with(|m| *m.borrow_mut() = Some(format!("capture @{} is node #{} {} of the tree but the node handed out says kind {} {}..{}", names[c.index as usize], idx, xt.brief(idx), c.node.kind(), c.node.start_byte(), c.node.end_byte())));
+                }
+            }
+            b.push((names[c.index as usize].to_string(), idx));
+        }
         out.push(b);
         if out.len() > 20000 { break; }
     }
@@ -284,6 +298,9 @@ pub fn worker(ctx: &Ctx, res: &mut ShardResult) {
                         crate::case!("{}", case_json(ql.name, &src, text));
                         res.transitions += 1;
                         let got = run_matches(&mut cursor, &query, tree, text, xt);
+                        if let Some(m) = CAPTURED_NODE_MISMATCH.with(|m| m.borrow_mut().take()) {
+                            res.violation("captured-node-differs-from-tree-node", format!("query {:?} on {:?}: {}", src, String::from_utf8_lossy(text), m), case_json(ql.name, &src, text));
+                        }
                         if !asserted { continue; }
                         // inside ERROR nodes the hidden supertype wrappers are unknowable from the visible tree
                         if uses_super && xt.has_error_or_missing() { continue; }
